@@ -197,7 +197,23 @@ func tagsText(f b6.Taggable) string {
 		xs = append(xs, t.Key+"="+valText(t.Value))
 	}
 	sort.Strings(xs)
-	return "{" + strings.Join(xs, ",") + "}"
+	out := "{" + strings.Join(xs, ",") + "}"
+	// Get(key) must agree with AllTags() for every key of the universe (a different code path:
+	// modifyTag vs modifyTags)
+	all := map[string]string{}
+	for _, t := range f.AllTags() {
+		if _, dup := all[t.Key]; !dup {
+			all[t.Key] = valText(t.Value)
+		}
+	}
+	for _, k := range AllKeys() {
+		g := f.Get(k)
+		want, ok := all[k]
+		if g.IsValid() != ok || (ok && valText(g.Value) != want) {
+			out += "!get:" + k
+		}
+	}
+	return out
 }
 
 // geomText renders the skeleton and the coordinates the wrapper resolves.
@@ -314,6 +330,19 @@ func Geom(w b6.World) string {
 			each[i] = strings.TrimLeft(each[i], "0")
 		}
 		fmt.Fprintf(&sb, " | each:%s", hx.List(each))
+		sb.WriteString(" | refs:")
+		for i, n := range AllIDs {
+			if i > 0 {
+				sb.WriteByte(' ')
+			}
+			var rs []int
+			it := w.FindReferences(FID(n))
+			for it.Next() {
+				rs = append(rs, ModelID(it.FeatureID()))
+			}
+			sort.Ints(rs)
+			fmt.Fprintf(&sb, "%d<%s", n, ints(rs))
+		}
 		if m, ok := w.(ingest.MutableWorld); ok {
 			var mod []int
 			m.EachModifiedFeature(func(f b6.Feature, _ int) error {
